@@ -145,7 +145,7 @@ reg("C15",
     level_text="For random parameter sets (hs 0.01-20 m, fp inside the grid, gamma 1-7, depth 1-1e5 m, gw 0.005-0.1; scalars and DataArrays over an extra dimension; log, linear and irregular frequency grids; full-circle direction grids of 8-360 bins starting anywhere; mean directions anywhere and within 1 deg of the 0/360 seam; spreads 5-80 deg) the real constructors are called and the result measured with the real accessor: Hs equals the request to 1e-9, densities are non-negative, JONSWAP(gamma=1)==PM, TMA(1e5 m)==JONSWAP, every spreading function is non-negative and integrates to one, equals the published cos^2s sampled on the grid, the 2-D product integrates back to the shape to 1e-12, measured dm/dspr equal those of the sampled ideal everywhere and the requested ones (0.01 deg) where the grid resolves the spread. Held = on the executions observed.",
     level_note="'Equal to the requested spread' can only hold up to the quadrature of the grid: it is decided in the resolved zone dd <= sigma/2 and sigma <= 50 deg and counted inconclusive outside it (DESIGN.md C15).",
     rule="case = (shape x grid family/size x scalar|DataArray parameters x coordinate container), (spreading: nd x dm placement x parameter kind x resolved|unresolved); distinct = distinct keys",
-    must_observe=["shape_hs", "jonswap_gamma1_is_pm", "tma_deep_is_jonswap", "spread_normalised", "spread_is_cos2s", "asymmetric_normalised", "oned_is_shape", "measured_equals_sampled_ideal", "measured_equals_requested"])
+    must_observe=["shape_hs", "jonswap_gamma1_is_pm", "tma_deep_is_jonswap", "spread_normalised", "spread_is_cos2s", "spread_under_90", "asymmetric_normalised", "oned_is_shape", "measured_equals_sampled_ideal", "measured_equals_requested"])
 
 reg("C19",
     technique="runtime offline checker over recorded tracking output histories (uniqueness per step, dense identifiers in order of first appearance, continuity only within recomputed thresholds, no reappearance, site independence); exhaustive short histories + random",
